@@ -23,4 +23,17 @@ CHECKS = {
             "assumptions": SEQ_ASSUME + ["the concurrent-reader half of C01 is checked by the SCHED harness c01s when built; this evidence is the sequential half", "a Multi state called by Remove that stays active may tick by 0 or 2 (the statement only fixes Add)"],
         },
     },
+    "C04": {
+        "pkg": "harness/c04",
+        "instr": {"features": ["sync", "go", "chan"], "pkgs": ["pkg/machine"]},
+        "sched": True,
+        "shards": {"quick": 8, "thorough": 16},
+        "gomaxprocs": 2,
+        "budget_s": {"quick": 150, "thorough": 1500},
+        "meta": {
+            "rule": "stateless model checking: every schedule of each 2-3 thread driver with <= bound deviations from the causal default (zero-cost = keep the running thread, else the thread it woke) is executed on the real machine inside a synctest bubble; branch points = sync operations at call sites that touched an object accessed by >=2 threads with >=1 write (learned, restart on growth); states = distinct decision traces, transitions = decisions+executions; distinct_nontrivial = distinct end observations",
+            "nontrivial_set": "outcomes",
+            "assumptions": ["Go atomics are sequentially consistent; plain data races are C12's business", "timers fire only when no controlled thread can run (fake clock)", "instrumenter + shims trusted; replays are checked for determinism"],
+        },
+    },
 }
